@@ -1,16 +1,34 @@
-// unit `chordal_decomp` : index-level pieces of the chordal decomposition and of its reversal (C18) and of the graph that is
-// handed to the clique-tree analysis (C17)
+// unit `chordal_decomp` : index-level pieces of the chordal decomposition and of its reversal (C18) and of the graph that is handed to
+// the clique-tree analysis (C17)
 //
-// PROVED (real text, unbounded, panic-freedom + structural clause):
-//   chordal_info.rs: find_aggregate_sparsity_mask, connect_graph, the row/col loop of find_graph (statement slice `find_graph_coords`)
-//   decomp/augment_standard.rs: add_subblock_map, decompose_with_cone
+// PROVED (real text, unbounded: panic-freedom + structural clause):
+//   chordal_info.rs: find_aggregate_sparsity_mask (row marked <=> A stores an entry in it or b[i] != 0), connect_graph (afterwards every
+//     column but the last has an entry below the diagonal; nothing lost; only the sub-diagonal entries (j+1, j) of unconnected columns
+//     added; canonical and strictly lower preserved), the triplet loop of find_graph (statement slice `find_graph_coords`)
+//   decomp/augment_standard.rs: add_subblock_map (appends the packed upper triangle of the clique block, entry (a, b) at tri(b) + a ->
+//     row_start + packed(v[a], v[b]); lemma_subblock_injective: for a sorted clique every entry appears exactly once), decompose_with_cone
+//   decomp/reverse_compact.rs: add_blocks_with_cone, the double loop of add_blocks_with_sparsity_pattern (statement slice
+//     `add_blocks_clique_loop`: z overwritten, s accumulated, each target written exactly once, nothing else touched, counter = tri(|clique|))
 // ASSUMED (hand-written stand-ins, not verified here):
 //   CscMatrix::set_entry : contract copied from unit csc_core, where it is PROVED from the real body;
 //   coord_to_upper_triangular_index, upper_triangular_index_to_coord : contracts copied from unit scalarmath, where they are PROVED
 //     (the second one modulo the assumed isqrt contract, see there);
-//   SupportedConeT<T> (stand-in, opaque) with `nvars` (uninterpreted `nvars_spec`; the real body is proved in unit postprocess for the
-//     default feature set) and `clone` (returns an equal value);
+//   SupportedConeT<T> (opaque stand-in; the real enum has a variant behind `#[cfg(feature = "sdp")]`) with `nvars` (uninterpreted
+//     `nvars_spec`; the real body is proved in unit postprocess for the default feature set) and `clone` (returns an equal value);
+//   VectorMath::copy_from (prelude/vecmath_assumed.rs, proved in unit vecmath), `Range::clone` (std);
 //   1.0 != 0.0 in the float model is a *precondition* of connect_graph (`!f_eq(f_one(), f_zero())`), true for IEEE-754.
+// PRECONDITIONS and the call sites:
+//   find_aggregate_sparsity_mask `rowval[k] < b.len()`: A.m == b.len() is asserted by _check_dimensions; that the row indices of the user's A
+//     are below A.m is NOT checked by DefaultSolver::new (check_format is never called on it): a malformed A panics here (as elsewhere);
+//   connect_graph `n >= 1` (`n - 1` underflow): holds, find_graph is reached only with a mask that is not all-true, hence non-empty;
+//     `canonical(L)`: L is QDLDL's factor pattern (not re-proved here);
+//   add_subblock_map / add_blocks_clique_loop: vertices < 2^31, sorted without repetition (`c.sort()` / `clique_buffer.sort()` of the
+//     distinct members of an IndexSet mapped through the permutation `ordering`), targets inside the rows of the original cone: by inspection.
+// DROPPED: find_graph outside the triplet loop (filter/count closure, triplet -> CSC, QDLDL), find_sparsity_patterns /
+//   get_decomposed_dim_and_overlaps of ChordalInfo (peekable iterators), find_standard_H_and_cones and decompose_with_sparsity_pattern
+//   (peekable, map/collect closures), find_H_col_dimension (one-line wrapper of the former), decomp_reverse_standard and
+//   number_of_overlaps_in_rows (position_all / map / collect closures around gemv and row_sums, whose contracts live in unit csc_math in the
+//   real-float model), augment_compact.rs (HashMap-free but built on peekable / closures throughout), psd_completion (LAPACK).
 use vstd::prelude::*;
 use std::ops::Range;
 verus! {
